@@ -727,3 +727,16 @@ package stick
 //@ func stick.(*FilesystemLoader).Load
 //@   ensures files: openfiles() == old(openfiles())
 //@   ensures ok: err == nil ==> r0 != nil
+
+// ---------------------------------------------------------------------------------------
+// C18: state shared by concurrent Execute / Parse calls on one environment is only read. The environment, its
+// callback tables and the built-in loaders are written by the configuration functions only (or while still private
+// to the function that allocates them); package-level variables by the package initialisers only.
+//@ fieldframe stick.Env only stick.New, stick.(*Env).Register, twig.(*AutoEscapeExtension).Init
+//@ fieldframe stick.MemoryLoader only
+//@ fieldframe stick.FilesystemLoader only stick.NewFilesystemLoader
+//@ fieldframe stick.StringLoader only
+//@ mapframe map[string]Filter only twig.(*AutoEscapeExtension).Init
+//@ mapframe map[string]Func only
+//@ mapframe map[string]Test only
+//@ globalframe only stick.init
